@@ -401,6 +401,15 @@ def make_rep(scaf_name, n, op, facet, step=None, attached=False, twin=False, pre
             elif facet == 'reparse':
                 docenv.tree_invariant(f, what='tree after %s' % op)
                 docenv.reparse_equivalent(f, what='reparse after %s %s k=%s' % (op, (si, sj, step), k))
+                # ... and the inserted children are live parts of the document: a follow-up edit INSIDE each of them shows in the text
+                edited = 0
+                for d in donors[:k]:
+                    if any(d is x for x in ref2) and isinstance(d, M.RawTreeModel) and hasattr(type(d), 'inline_comment'):
+                        d.inline_comment = 'fu%d' % edited
+                        edited += 1
+                if edited:
+                    docenv.tree_invariant(f, what='tree after %s and a follow-up edit inside the inserted children' % op)
+                    docenv.reparse_equivalent(f, what='reparse after %s %s k=%s and inline_comment = ... on each inserted child' % (op, (si, sj, step), k))
             else:
                 raise AssertionError(facet)
 
@@ -451,7 +460,7 @@ for _facet, _prop in FACET_PROP.items():
                 for _op in ('setslice_ext', 'delslice_ext'):
                     if _n < 2:
                         continue
-                    quick = _scaf in QUICK_SCAF[_facet][:2] and _n == 3 and _step in (2, -1)
+                    quick = (_scaf in QUICK_SCAF[_facet][:2] or (_scaf == 'txn_postings' and _facet in ('reparse', 'window') and _op == 'setslice_ext')) and _n == 3 and _step in (2, -1)
                     _reg(make_rep(_scaf, _n, _op, _facet, step=_step), {_prop: Q if quick else T}, 900, 'rep/' + _facet,
                          _bounds(_scaf, _n, _op, _step), cost=(2 * _n + 7) ** 2 * 2)
 # attached donors: must be refused, both documents untouched (C19); the tree stays valid (C05)
